@@ -43,3 +43,19 @@ _prop('C20',
                    'runtime facts, not decided',
                    'implicit exceptions (KeyError from a subscript) are not '
                    'modelled as raises by OR-ATOMIC'])
+
+from . import rules_validator  # noqa: E402
+
+_prop('C15',
+      rules=[rules_validator.rule_or_report, rules_validator.rule_ag_valid_hdf5,
+             rules_validator.rule_ag_vocab, rules_validator.rule_or_aggr,
+             rules_validator.rule_bounds,
+             rules_validator.rule_shape_crosscheck,
+             rules_validator.rule_records, rules_validator.rule_json_keys],
+      minima={'OR-REPORT': 15, 'AG-VALID': 24, 'AG-VOCAB': 2, 'OR-AGGR': 7,
+              'AX-BOUNDS': 8, 'AX-SHAPE': 6, 'SB-RECORDS': 8,
+              'AG-JSONKEYS': 16},
+      rule_texts=rules_validator.RULE_TEXT,
+      trusted=['doc/documentation/format_versions/biom-2.1.rst is the '
+               'specification'],
+      assumptions=[])
